@@ -124,6 +124,32 @@ func reentrant(r *run.R) {
 		}
 	}
 	r.Require("connected_delivered_between_scan_and_selection", 1)
+	// values that do NOT tie with the two peers whose Stat() is the callback point: the comparator
+	// holds the segment locks of the two peers it compares, and the flapping peer's segment must be free
+	// at that moment (as it would be for a notifier goroutine that gets to run then)
+	for _, v := range []int{-5, 5} {
+		for _, early := range []bool{false, true} {
+			caseID := fmt.Sprintf("reentrant/flap-during-trim/value%d/early-tag=%v", v, early)
+			if !r.Want(caseID) {
+				continue
+			}
+			var reached, closedFresh bool
+			var log []string
+			b := run.Bubble(r.T, func(*testing.T) { reached, closedFresh, log = flapDuringTrim(v, early) })
+			r.Eval(1)
+			if r.BubbleFailed(b, "reentrant", caseID, "the manager deadlocked", map[string]any{"log": log}) {
+				continue
+			}
+			if reached {
+				r.Count("flap_delivered_between_scan_and_selection", 1)
+				r.Nontrivial(caseID)
+			}
+			if closedFresh {
+				r.Violation("trim:closed-in-grace/reentrant:flap-during-trim", caseID, "trim closed a connection 0 ms after its peer re-connected (grace period 10 s): the peer had been a candidate with its previous connection when the trim scanned", map[string]any{"log": log})
+			}
+		}
+	}
+	r.Require("flap_delivered_between_scan_and_selection", 2)
 }
 
 // concurrent runs the concurrent histories (and only those, with reduced counts, in the race pass).
